@@ -248,6 +248,12 @@ def auto_discharge(prog, fn, v, op, a, b):
             return 'small multiple of an iteration counter in a 64-bit type: cannot overflow'
         if op == 'Shl' and counter(sa) and sb.kind == 'const' and isinstance(sb.args[0], int) and sb.args[0] <= 16:
             return 'small shift of an iteration counter in a 64-bit type: cannot overflow'
+    if op == 'Sub' and sa.kind == 'call' and sa.callee_name() == 'len' and sb.kind == 'call' and sb.callee_name() == 'len' and same_val(strip_ref(sa.args[0]), strip_ref(sb.args[0])) and sb.point < sa.point:
+        # len(now) - len(before) of one vector that is only pushed to in between
+        shrink = [m for m in body.calls if m.callee_name() in ('pop', 'remove', 'swap_remove', 'truncate', 'clear', 'retain', 'drain', 'split_off') and m.args
+                  and same_val(strip_ref(m.args[0]), strip_ref(sa.args[0])) and body.cfg.dominates(sb.point[0], m.point[0])]
+        if not shrink:
+            return 'length of a vector minus its own earlier length, with nothing that shrinks it in between'
     if op == 'Sub' and sa.kind == 'call' and sa.callee_name() == 'len':
         # len - n where n <= len guarded
         for (g, x, y) in guards:
